@@ -1,0 +1,18 @@
+//go:build verif
+
+package saml
+
+import "github.com/beevik/etree"
+
+// This file is compiled only with the build tag "verif". It exposes two unexported helpers to the
+// external verification harness, read-only: the harness uses them to learn what the service
+// provider's own unmarshalling and decryption make of an element, as inputs of an executable model.
+// It changes no behaviour of the package.
+
+// VerifUnmarshalElement is unmarshalElement.
+func VerifUnmarshalElement(el *etree.Element, v interface{}) error { return unmarshalElement(el, v) }
+
+// VerifDecryptElement is (*ServiceProvider).decryptElement.
+func (sp *ServiceProvider) VerifDecryptElement(el *etree.Element) (*etree.Element, error) {
+	return sp.decryptElement(el)
+}
